@@ -140,3 +140,13 @@ TABLE['C08'] = {
                     'coroutine bodies do not advance coroutines themselves (next() on a generator owned by the processor)'],
     'explanation': 'Ghost clocks: need(r) is the number a coroutine yielded, since(r) the dt accumulated by process calls since then; the contract of process (not the code) advances since by dt on entry. Class invariant W11 ties the stored deadline to them (wait_time - timer == need - since); process is proved to wake a record iff since >= need, to create a record with need = yielded value and since = 0 for every positive yield, to leave the coroutine runnable otherwise, to step every runnable coroutine exactly once and to keep the relative order of those that stay runnable.',
 }
+
+TABLE['C15'] = {
+    'modules': ['model_spec'], 'replay': 'worldload_replay', 'level': 'other',
+    'bounded_hook': 'pyvc.bounded_native',
+    'bound': 'descriptions written to JSON files and loaded through WorldFromFileHandle inside a resource tree (every third one through populate_world_from_dict with real types): one component/processor with each of 20 argument values (numbers, None, booleans, plain strings, strings with a marker not at the beginning, the three reference forms to objects, resources, sub-maps and handles, lists and dicts) as positional, keyword and mixed argument; all descriptions of 0..2 entities (3 in the thorough tier) drawn from 4 component lists x 4 identifiers (absent, strings, an integer) x 4 processor lists',
+    'trusted_base': T_STATE,
+    'assumptions': ['json.load, open, copy.deepcopy, importlib.import_module, re (the three reference patterns) by their documented behaviour',
+                    'constructors of listed types return new objects'],
+    'explanation': 'Deductive part: WorldHandle.load (new world, disabled before any transformer runs, every transformer called exactly once in deque order with (handle, world), on_world_load(handle, world) dispatched exactly once afterwards and queued last, returned disabled), the file handle\'s transformer list (defaults first), default_processors_transformer and populate_world_from_dict (exactly one construction per listed processor/component with the listed packs, add_processor / create_entity invoked with exactly those objects and identifiers, in order). The argument-reference transformers (regular expressions on strings, importlib) and the end-to-end statement are covered by the BOUNDED native stand-in only.',
+}
